@@ -10,6 +10,7 @@ import json
 import os
 from collections import deque
 
+import re
 import mir
 import opcodes
 import rules
@@ -943,6 +944,23 @@ def const_declaration_over_existing_name(F, rep, rule="C10.guard"):
                 g = F.fn(cd) if cd else None
                 if g is not None and g.calls_to("compiler::ast::assignment::AssignmentFlag::modify"):
                     mod.add(c.dst["l"])
+    if not mod:
+        # other spelling of the same thing (`flags.is_some_and(AssignmentFlag::is_modify)`): the flag is whatever Parser::assignment hands to the
+        # declaration parsers as their `is_modify` parameter
+        for c in pa.calls():
+            g = F.fn(c.callee())
+            if g is None or not re.search(r"::assignment_(no_type|type|unpack)$", g.path):
+                continue
+            names = getattr(g, "names", None) or {}
+            idx = [i for i, nme in names.items() if nme == "is_modify" and 1 <= i <= g.argc]
+            for i in idx:
+                l = op_local(c.args[i - 1]) if i - 1 < len(c.args) else None
+                for _ in range(4):
+                    if l is None:
+                        break
+                    mod.add(l)
+                    ds = [d for d in rules.defs_of(pa, l) if d[0] == "assign" and "use" in d[4]]
+                    l = op_local(ds[0][4]["use"]) if len(ds) == 1 else None
     if not mod:
         raise AnchorMissing("the `modify` flag of Parser::assignment")
 
